@@ -42,6 +42,7 @@ import (
 	"github.com/Cloud-Foundations/golib/pkg/auth/userinfo/gitdb"
 	"github.com/Cloud-Foundations/keymaster/keymasterd/admincache"
 	"github.com/duo-labs/webauthn/webauthn"
+	"github.com/fxamacker/cbor/v2"
 	"github.com/pquerna/otp/totp"
 	"github.com/tstranex/u2f"
 )
@@ -155,6 +156,37 @@ func (s *c08SoftToken) register(c *u2f.Challenge, origin string) u2f.RegisterRes
 	return u2f.RegisterResponse{Version: "U2F_V2", RegistrationData: c08b64(reg), ClientData: c08b64(clientData)}
 }
 
+// a WebAuthn registration ("none" attestation) a real authenticator would give for this session
+const c08WAChallenge = "dmVyaWYtd2ViYXV0aG4tY2hhbGxlbmdlLTAxMjM0NTY3"
+
+func (s *c08SoftToken) webauthnCreate(challenge, rpID, origin string) []byte {
+	clientData, _ := json.Marshal(map[string]string{"type": "webauthn.create", "challenge": challenge, "origin": origin})
+	credID := make([]byte, 16)
+	rand.Read(credID)
+	x := s.key.PublicKey.X.FillBytes(make([]byte, 32))
+	y := s.key.PublicKey.Y.FillBytes(make([]byte, 32))
+	cose, err := cbor.Marshal(map[int]interface{}{1: 2, 3: -7, -1: 1, -2: x, -3: y})
+	if err != nil {
+		panic(err)
+	}
+	rp := sha256.Sum256([]byte(rpID))
+	ad := append([]byte{}, rp[:]...)
+	ad = append(ad, 0x41)       // user present + attested credential data
+	ad = append(ad, 0, 0, 0, 0) // signature counter
+	ad = append(ad, make([]byte, 16)...)
+	ad = append(ad, byte(len(credID)>>8), byte(len(credID)))
+	ad = append(ad, credID...)
+	ad = append(ad, cose...)
+	att, err := cbor.Marshal(map[string]interface{}{"fmt": "none", "attStmt": map[string]interface{}{}, "authData": ad})
+	if err != nil {
+		panic(err)
+	}
+	id := base64.RawURLEncoding.EncodeToString(credID)
+	body, _ := json.Marshal(map[string]interface{}{"id": id, "rawId": id, "type": "public-key",
+		"response": map[string]string{"attestationObject": base64.RawURLEncoding.EncodeToString(att), "clientDataJSON": base64.RawURLEncoding.EncodeToString(clientData)}})
+	return body
+}
+
 // ---------------------------------------------------------------- fixtures
 
 type c08Fix struct {
@@ -192,7 +224,9 @@ func (f *c08Fix) profile(variant int) *userProfile {
 		p.RegistrationChallenge = f.challenge
 		enc := f.encSecret
 		p.PendingTOTPSecret = &enc
-		p.WebauthnSessionData = &webauthn.SessionData{Challenge: "dmVyaWYtY2hhbGxlbmdl", UserID: []byte{1, 2, 3}}
+		p.WebauthnID = 4711
+		p.DisplayName, p.Username = "verif", "verif"
+		p.WebauthnSessionData = &webauthn.SessionData{Challenge: c08WAChallenge, UserID: p.WebAuthnID()}
 	}
 	return p
 }
@@ -550,7 +584,11 @@ func (r *c08Runner) request(c *c08Cell) *http.Request {
 		case 1:
 			body, _ = json.Marshal(u2f.RegisterResponse{Version: "U2F_V2", RegistrationData: "AAAA", ClientData: "AAAA"})
 		default:
-			body, _ = json.Marshal(r.fix.soft.register(r.fix.challenge, u2fTrustedFacets[0]))
+			if c.op == "WARegFinish" {
+				body = r.fix.soft.webauthnCreate(c08WAChallenge, r.env.state.webAuthn.Config.RPID, r.env.state.webAuthn.Config.RPOrigin)
+			} else {
+				body, _ = json.Marshal(r.fix.soft.register(r.fix.challenge, u2fTrustedFacets[0]))
+			}
 		}
 		req = httptest.NewRequest(method, "https://keymaster.example"+path, bytes.NewReader(body))
 		req.Header.Set("Content-Type", "application/json")
@@ -758,7 +796,7 @@ func c08Canonical(op string, cred c08Cred, target string) *c08Cell {
 	case "ManageTOTP":
 		c.action, c.index = "Delete", "0"
 	case "U2FRegFinish", "WARegFinish", "TOTPValidate":
-		c.variant = c08VarFull
+		c.variant, c.proof = c08VarFull, 2 // genuine material from the software token / the TOTP secret
 	case "NewBootstrapOTP":
 		c.variant = c08VarBare
 	}
@@ -777,7 +815,10 @@ func (r *c08Runner) matrix(levels []int, full bool) {
 	creds = append(creds, c08Cred{"ipcert", "svc-automation", 0}, c08Cred{"none", "", 0})
 	for _, op := range c08Ops {
 		for ci, cred := range creds {
-			targets := []string{cred.user, "bob", "newuser", ""}
+			targets := []string{cred.user, "bob", "admin", "newuser", ""}
+			if cred.user == "admin" {
+				targets[2] = "gadmin"
+			}
 			if op == "RoleCert" {
 				targets = []string{"svc-automation", "svc-grp", "alice", ""}
 			}
@@ -809,6 +850,8 @@ func (r *c08Runner) sweeps(rng *mrand.Rand, thorough bool) {
 		{c08Cred{"session", "alice", u2fL}, "bob"},
 		{c08Cred{"session", "admin", u2fL}, "bob"},
 		{c08Cred{"session", "admin", totpL}, "bob"},
+		{c08Cred{"session", "gadmin", totpL}, "admin"},
+		{c08Cred{"session", "alice", u2fL}, "admin"},
 		{c08Cred{"session", "gadmin", u2fL}, "bob"},
 		{c08Cred{"session", "gadmin", pw}, "gadmin"},
 		{c08Cred{"session", "admin", u2fL}, "newuser"},
@@ -838,9 +881,6 @@ func (r *c08Runner) sweeps(rng *mrand.Rand, thorough bool) {
 		// finish steps with each verifier outcome, on fixtures with and without pending material
 		for _, op := range []string{"U2FRegFinish", "WARegFinish", "TOTPValidate"} {
 			for proof := 0; proof < 3; proof++ {
-				if op == "WARegFinish" && proof == 2 {
-					continue // no software WebAuthn authenticator in the harness
-				}
 				for _, v := range []int{c08VarFull, c08VarTokens} {
 					for _, post := range []bool{true, false} {
 						r.run(&c08Cell{variant: v, cred: cb.cred, post: post, op: op, target: cb.target, proof: proof, paramsOK: true})
@@ -905,9 +945,6 @@ func (r *c08Runner) sweeps(rng *mrand.Rand, thorough bool) {
 		c := &c08Cell{variant: rng.Intn(3), cred: cred, post: rng.Intn(4) != 0, op: c08Ops[rng.Intn(len(c08Ops))], target: users[rng.Intn(len(users))],
 			action: actions[rng.Intn(len(actions))], index: indexes[rng.Intn(len(indexes))], name: []string{"renamed", "renamed", "", "bad<name>"}[rng.Intn(4)],
 			proof: rng.Intn(3), paramsOK: rng.Intn(4) != 0}
-		if c.op == "WARegFinish" && c.proof == 2 {
-			c.proof = 1
-		}
 		if rng.Intn(3) == 0 {
 			c.target = cred.user
 		}
